@@ -1125,6 +1125,9 @@ func runLoaderProp(prop string, judge string) {
 		seen := map[string]bool{}
 		var terms []string
 		var idx []int
+		if prop == "C11" && replay == "" {
+			c11Extra(outDir, meta)
+		}
 		after := map[int]string{}
 		if prop == "C20" {
 			after = c20After(cases, outDir)
